@@ -1,4 +1,5 @@
 import SJ.Props.C04
+#print axioms SJ.Props.C04.c04_written_text
 #print axioms SJ.Props.C04.c04_reads_back
 #print axioms SJ.Props.C04.c04_value
 #print axioms SJ.Props.C04.c04_value_pretty
